@@ -287,12 +287,15 @@ class DescriptorTransaction(_TransactionBase):
         """
         proc = TransactionResult()
         if self.descriptor_updates:
-            self._mdib.mdib_version = self.new_mdib_version
-            # need to know all to be deleted and to be created descriptors
+            # need to know all to be deleted, to be created and to be updated descriptors
             to_be_deleted_handles = [tr_item.old.Handle for tr_item in self.descriptor_updates.values()
                                      if tr_item.new is None and tr_item.old is not None]
             to_be_created_handles = [tr_item.new.Handle for tr_item in self.descriptor_updates.values()
                                      if tr_item.old is None and tr_item.new is not None]
+            to_be_updated_handles = [tr_item.new.Handle for tr_item in self.descriptor_updates.values()
+                                     if tr_item.old is not None and tr_item.new is not None]
+            self._check_consistency(to_be_created_handles)  # raises before anything is changed
+            self._mdib.mdib_version = self.new_mdib_version
             # Remark 1:
             # handling only updated states here: If a descriptor is created, it can be assumed that the
             # application also creates the state in a transaction.
@@ -317,8 +320,9 @@ class DescriptorTransaction(_TransactionBase):
                     self._mdib.descriptions.add_object_no_lock(new_descriptor)
                     # increment DescriptorVersion if a child descriptor is added or deleted.
                     if new_descriptor.parent_handle is not None \
-                            and new_descriptor.parent_handle not in to_be_created_handles:
-                        # only update parent if it is not also created in this transaction
+                            and new_descriptor.parent_handle not in to_be_created_handles \
+                            and new_descriptor.parent_handle not in to_be_updated_handles:
+                        # only update parent if it is not also created or updated in this transaction
                         self._increment_parent_descriptor_version(proc, new_descriptor)
                     self._update_corresponding_state(new_descriptor)
                 elif new_descriptor is None:
@@ -331,8 +335,9 @@ class DescriptorTransaction(_TransactionBase):
                     proc.descr_deleted.extend([d.mk_copy() for d in all_descriptors])
                     # increment DescriptorVersion if a child descriptor is added or deleted.
                     if orig_descriptor.parent_handle is not None \
-                            and orig_descriptor.parent_handle not in to_be_deleted_handles:
-                        # only update parent if it is not also deleted in this transaction
+                            and orig_descriptor.parent_handle not in to_be_deleted_handles \
+                            and orig_descriptor.parent_handle not in to_be_updated_handles:
+                        # only update parent if it is not also deleted or updated in this transaction
                         self._increment_parent_descriptor_version(proc, orig_descriptor)
                 else:
                     # this is an update operation
@@ -353,6 +358,30 @@ class DescriptorTransaction(_TransactionBase):
                 updates = self._handle_state_updates(updates_dict)
                 dest_list.extend(updates)
         return proc
+
+    def _check_consistency(self, to_be_created_handles: list[str]):
+        """Raise an ApiUsageError if the transaction would leave descriptors without parent or states without descriptor.
+
+        A descriptor cannot be updated, and no child can be added to it, if it is deleted (as part of a subtree)
+        in the same transaction. The parent of a new descriptor must exist.
+        """
+        deleted_handles = set()
+        for tr_item in self.descriptor_updates.values():
+            if tr_item.new is None and tr_item.old is not None:
+                deleted_handles.update(d.Handle for d in self._mdib.get_all_descriptors_in_subtree(tr_item.old))
+        for handle, tr_item in self.descriptor_updates.items():
+            if tr_item.new is None:
+                continue
+            if tr_item.old is not None:
+                if handle in deleted_handles:
+                    msg = f'Descriptor {handle} is updated and deleted in the same transaction!'
+                    raise ApiUsageError(msg)
+            else:
+                parent_handle = tr_item.new.parent_handle
+                if parent_handle is not None and parent_handle not in to_be_created_handles \
+                        and (parent_handle in deleted_handles or parent_handle not in self._mdib.descriptions.handle):
+                    msg = f'Parent {parent_handle} of new descriptor {handle} does not exist or is deleted!'
+                    raise ApiUsageError(msg)
 
     def _update_corresponding_state(self, descriptor_container: AbstractDescriptorProtocol):
         updates_dict = self._get_states_update(descriptor_container)
